@@ -20,7 +20,7 @@ PROP = 'C03'
 TSIZE = H.TSIZE
 LEAN_FILES = ['PnVerif/Spec/SpecDecode.lean', 'PnVerif/Model/Header.lean', 'PnVerif/Model/HeaderText.lean', 'PnVerif/Model/Layout.lean',
               'PnVerif/Lemmas/HeaderLemmas.lean', 'PnVerif/Lemmas/Window.lean', 'PnVerif/Lemmas/Decode.lean', 'PnVerif/Lemmas/Encode.lean',
-              'PnVerif/Lemmas/LayoutLemmas.lean', 'PnVerif/Lemmas/PostPass.lean', 'PnVerif/Props/C04.lean', 'PnVerif/Props/C03.lean', 'Driver/C03.lean']
+              'PnVerif/Lemmas/LayoutLemmas.lean', 'PnVerif/Lemmas/PostPass.lean', 'PnVerif/Lemmas/Accept.lean', 'PnVerif/Props/C04.lean', 'PnVerif/Props/C03.lean', 'Driver/C03.lean']
 hx, unhx = H.hx, H.unhx
 SAFE_REST = H.FIRST + '._-+@'
 
@@ -612,7 +612,7 @@ def run_check(tier, seed):
             scen.append(dict(path=path, ops=ops, final=final, kind=kind, pre=pre, feats=feats, fmt=m.s['fmt'], env=m.env))
             for f in feats:
                 feats_all[f] = feats_all.get(f, 0) + 1
-        # replay of finding F19 (Props.C03.reportedExtent_counterexample): a file without variables,
+        # replay of finding FB2-1 (Props.C03.reportedExtent_counterexample): a file without variables,
         # reopened, reports header extent 0
         kpath = os.path.join(wd, 'known_f19.nc')
         replay_ops = ['create %s 1 0 0 0 0' % kpath, 'defdim 78 3', 'putatt -1 61 4 1 00000005', 'enddef', 'inq', 'close',
@@ -723,7 +723,7 @@ def run_check(tier, seed):
                         prop_fail.append(('clobber-survivor', sc, where, 'size %d expected end %d; %d bytes 0xAA outside written areas (first at %s)' %
                                           (len(fb), fin['end'], len(left), left[:3])))
                 distinct.add((si, tuple(sorted(sc['feats'])), sc['fmt'], tuple(sc['env'])))
-            # replay F19 (rank 0 answers of the two inquiries)
+            # replay FB2-1 (rank 0 answers of the two inquiries)
             a1 = outs[0][pos + 4].split()
             a2 = outs[0][pos + 7].split()
             evals += 2
@@ -733,7 +733,7 @@ def run_check(tier, seed):
                                       'after create+enddef: header_size %s extent %s; after ncmpi_open of the same file: header_size %s extent %s'
                                       % (a1[2], a1[3], a2[2], a2[3])))
             else:
-                tie_diffs.append(dict(stream='replay-F19', got=[outs[0][pos + 4][:100], outs[0][pos + 7][:100]]))
+                tie_diffs.append(dict(stream='replay-FB2-1', got=[outs[0][pos + 4][:100], outs[0][pos + 7][:100]]))
         # ---- the Lean specification decoder on the real files
         nspec = 0
         for fb, exp, where in spec_q:
